@@ -80,6 +80,33 @@ def encoder_leaks(codec):
     return None
 
 
+def bcj_decoder_leaks():
+    """KF-71 (open, dependency): a bcj decoder object never gives back its internal buffer, which is as large as the largest piece
+    it was fed (up to the 128 MB extraction chunk): every folder behind an alternative BCJ filter costs that much for the rest of the
+    process.  Decided by measuring: decode 48 MiB through a fresh decoder, drop it, compare the resident set."""
+    import gc
+
+    import bcj
+
+    def rss():
+        with open("/proc/self/status") as f:
+            for line in f:
+                if line.startswith("VmRSS"):
+                    return int(line.split()[1])
+        return 0
+
+    try:
+        gc.collect()
+        r0 = rss()
+        d = bcj.BCJDecoder(1 << 40)
+        out = d.decode(bytes(48 << 20)[:-1] + b"z")
+        del out, d
+        gc.collect()
+        return rss() - r0 > (24 << 10)
+    except Exception:
+        return False
+
+
 class C20(Check):
     property_id = "C20"
     level = "exploration"
@@ -148,7 +175,7 @@ class C20(Check):
                                       "position": st.sampled_from(["alone", "first", "last", "middle", "folders4"]), "aes": st.sampled_from([False, False, True]),
                                       "wmode": st.sampled_from(["w", "w", "a"]), "rlimit_data": st.sampled_from([None, None, 4 << 30, 8 << 30]),
                                       "seed": st.integers(1, 999)}).filter(
-            lambda c: not (c["content"] == "random" and (c["codec"] in ("BZip2", "PPMd", "X86+PPMd", "ARM+BZip2", "Deflate64", "LZMA", "X86+LZMA") or c["size_mb"] > 1536))
+            lambda c: not (c["content"] in ("random", "half") and "PPMd" in c["codec"]) and not (c["content"] == "random" and (c["codec"] in ("BZip2", "PPMd", "X86+PPMd", "ARM+BZip2", "Deflate64", "LZMA", "X86+LZMA") or c["size_mb"] > 1536))
             and not (c["size_mb"] > 1536 and c["codec"] in ("BZip2", "ARM+BZip2", "PPMd", "X86+PPMd", "Deflate64")))
 
     def examples(self, env):
@@ -212,6 +239,8 @@ class C20(Check):
                 out.inconclusive = "watchdog-read"
                 return out
             if r.get("peak_growth_kb", 0) > BUDGET_KB:
+                if case["position"] == "folders4" and "+" in case["codec"] and not case["codec"].endswith(("LZMA2",)) and bcj_decoder_leaks():
+                    sig = dict(sig, decoder_leak="bcj")  # KF-71
                 out.violate(dict(sig, kind="rss", op=case["op"], content="compressible" if case["content"] != "random" else "incompressible"),
                             observed={"peak_growth_mib": r["peak_growth_kb"] // 1024, "member_mib": case["size_mb"], "error": r.get("error")},
                             expected="<= 700 MiB")
